@@ -414,6 +414,18 @@ impl<'tcx> Ex<'tcx> {
         if body.coroutine.is_some() {
             o.push_str(",\"coroutine\":true");
         }
+        if matches!(kind, DefKind::Fn | DefKind::AssocFn) {
+            // names of the type parameters, in the order in which a call site lists its type arguments (`gargs`)
+            let g = tcx.generics_of(did);
+            let mut tp = Vec::new();
+            for i in 0..g.count() {
+                let p = g.param_at(i, tcx);
+                if matches!(p.kind, ty::GenericParamDefKind::Type { .. }) {
+                    tp.push(jstr(&p.name.to_string()));
+                }
+            }
+            let _ = write!(o, ",\"tparams\":{}", jlist(&tp));
+        }
         let _ = write!(o, ",\"arg_count\":{}", body.arg_count);
         // locals
         let mut locals = Vec::new();
